@@ -257,6 +257,36 @@ UNIT['parts'] += [
      },
 ]
 
+# ---------------------------------------------------------------- hit policy spellings: text-table markers and XML attributes
+MM = 'model/src/model/mod.rs'
+MP = 'model/src/model/parser.rs'
+def _lit_arms(n):
+    return ('RX', 'R23', r'(?m)^(\s*)("[^"]*") =>', r'\1_ if str_is(t_, \2) =>', n)
+UNIT['parts'] += [
+    {'kind': 'vrs', 'file': 'hitpolicy/markers.vrs'},
+    {'kind': 'item', 'src': MP, 'path': 'const ATTR_HIT_POLICY', 'rewrites': [('RX', 'R7', r'const (\w+): &str =', r"pub const \1: &'static str =", 1)]},
+    {'kind': 'item', 'src': MP, 'path': 'const ATTR_AGGREGATION', 'rewrites': [('RX', 'R7', r'const (\w+): &str =', r"pub const \1: &'static str =", 1)]},
+    {'kind': 'fn', 'src': MM, 'path': 'impl TryFrom<&str> for HitPolicy::fn try_from', 'key': 'hitpolicy::HitPolicy::try_from_marker', 'props': ['C03', 'C19'], 'auto_props': ['C03', 'C19', 'C05'], 'loops': 0,
+     'ret': 'r', 'no_wrap': True, 'body_prefix': 'proof { lemma_spellings(); }',
+     'sig_rewrite': [(r'fn try_from\(value: &str\) -> \(r: Result<Self, Self::Error>\)', 'pub fn hit_policy_try_from_marker(value: &str) -> (r: Result<HitPolicy, DmntkError>)')],
+     'rewrites': [('RX', 'R23', r'match value\.trim\(\) \{', 'let t_ = str_trim(value);\n    match () {', 1), _lit_arms(11),
+                  ('RX', 'R23', r'other => Err\(invalid_decision_table_hit_policy\(other\)\)', '_ => Err(invalid_decision_table_hit_policy(t_))', 1)],
+     'ensures': [('the_policy_the_marker_denotes', '(r is Ok) == (policy_of_marker(trimmed(value@)) is Some) && (r is Ok ==> r->Ok_0 == policy_of_marker(trimmed(value@))->Some_0)')]},
+    {'kind': 'fn', 'src': MP, 'path': 'impl ModelParser::fn parse_aggregation_attribute', 'key': 'hitpolicy::ModelParser::parse_aggregation_attribute', 'props': ['C03'], 'auto_props': ['C03', 'C05'], 'loops': 0,
+     'ret': 'r', 'body_prefix': 'proof { lemma_spellings(); }', 'sig_rewrite': [(r'^(\s*)fn ', r'\1pub fn ')],
+     'rewrites': [('RX', 'R13', r'node\.attribute\(ATTR_AGGREGATION\)', 'node_attribute(node, ATTR_AGGREGATION)', 1),
+                  ('RX', 'R23', r'match aggregation_text\.trim\(\) \{', 'let t_ = str_trim(aggregation_text);\n      match () {', 1), _lit_arms(4),
+                  ('RX', 'R23', r'other => Err\(invalid_aggregation\(other\)\)', '_ => Err(invalid_aggregation(t_))', 1)],
+     'ensures': [('the_aggregator_the_attribute_denotes', '(r is Ok) == (aggregator_of_attr(attr_of(*node, "aggregation"@)) is Some) && (r is Ok ==> r->Ok_0 == aggregator_of_attr(attr_of(*node, "aggregation"@))->Some_0)')]},
+    {'kind': 'fn', 'src': MP, 'path': 'impl ModelParser::fn parse_hit_policy_attribute', 'key': 'hitpolicy::ModelParser::parse_hit_policy_attribute', 'props': ['C03'], 'auto_props': ['C03', 'C05'], 'loops': 0,
+     'ret': 'r', 'body_prefix': 'proof { lemma_spellings(); }', 'sig_rewrite': [(r'^(\s*)fn ', r'\1pub fn ')],
+     'rewrites': [('RX', 'R13', r'node\.attribute\(ATTR_HIT_POLICY\)', 'node_attribute(node, ATTR_HIT_POLICY)', 1),
+                  ('RX', 'R23', r'match hit_policy_text\.trim\(\) \{', 'let t_ = str_trim(hit_policy_text);\n      match () {', 1), _lit_arms(7),
+                  ('RX', 'R23', r'other => Err\(invalid_hit_policy\(other\)\)', '_ => Err(invalid_hit_policy(t_))', 1)],
+     'ensures': [('the_policy_the_attributes_denote', '(r is Ok) == (policy_of_attrs(attr_of(*node, "hitPolicy"@), attr_of(*node, "aggregation"@)) is Some) '
+                  '&& (r is Ok ==> r->Ok_0 == policy_of_attrs(attr_of(*node, "hitPolicy"@), attr_of(*node, "aggregation"@))->Some_0)')]},
+]
+
 BOUNDED = {'C12': [{'name': 'single-structural-faults-never-crash', 'script': 'modelfaults.py', 'args': [], 'quick_args': ['--cover'], 'thorough_args': ['--models', '1000'],
                     'functions': ['dmntk_model::parse', 'ModelEvaluator::new (all builders of model-evaluator)', 'ModelEvaluator::evaluate_invocable for every decision / knowledge model / decision service with an empty context'],
                     'bound': 'quick: the 15 example models of a greedy cover of every element and attribute name used by the 148 shipped example models (thorough: all 148), each with every single fault of the kinds delete element, '
